@@ -607,3 +607,30 @@ def annotation_cache_obligations(repo, chk, rule):
     chk.ob(rule, "transform.PteraTransformer:annotation-values-are-memoised-per-instrumentation-and-per-node", fresh and bool(keys) and set(keys) == {p} and not others, ev.where,
            f"the cache of evaluated annotations is a new dict for every transformer (`{norm(st[0]) if st else 'no store'}`), used only by _evaluate and keyed by the annotation node "
            f"itself (keys {sorted(set(keys))}): no value is carried over to another function or another moment" + (f"; also touched in {others}" if others else ""))
+
+
+def call_aggregate_obligations(repo, chk, rule, props, why):
+    """Each aggregate of selector.Call (focus, hasval, main, valid, all_captures, all_values, all_tags) ranges over the level's own captures
+    AND its child calls, in every place where it iterates: a sub-expression that looks at the captures only forgets everything written
+    on nested calls (`f > g > x`: the focus, a value condition, a tag)."""
+    import ast
+    from ..core import norm, walk_local
+    for prop in props:
+        fi = repo.func(f"selector.Call.{prop}")
+        iters = [n.iter for n in walk_local(fi.node) if isinstance(n, (ast.For, ast.comprehension))]
+        cover = {"captures": 0, "children": 0}
+        odd = []
+        for it in iters:
+            t = norm(it)
+            if t in ("self.captures + self.children", "self.children + self.captures"):
+                cover["captures"] += 1
+                cover["children"] += 1
+            elif t == "self.captures":
+                cover["captures"] += 1
+            elif t == "self.children":
+                cover["children"] += 1
+            elif "self.captures" in t or "self.children" in t:
+                odd.append(t)
+        ok = cover["captures"] >= 1 and cover["captures"] == cover["children"] and not odd
+        chk.ob(rule, f"selector.Call.{prop}:ranges-over-captures-and-children-alike", ok, fi.where,
+               f"Call.{prop} looks at the captures and at the child calls the same number of times ({cover}{', other iterables ' + str(odd) if odd else ''}): {why}")
